@@ -5,6 +5,7 @@ import (
 	"context"
 	"encoding/binary"
 	"fmt"
+	"net/netip"
 	"strings"
 	"time"
 
@@ -35,6 +36,9 @@ type World struct {
 
 	Led       *Ledger
 	askLed    *askLedger
+	hosts     []netip.AddrPort
+	// AddrHook sees every message handed to a callback (C16)
+	AddrHook func(ep Endpoint, m Msg)
 	AskFaults bool // negative handler returns and too-small buffers are part of the workload
 
 	// run phases: the root task flips these; OnIdle reads them
@@ -88,6 +92,20 @@ func (l *Ledger) New(st *simcore.Stream, from, to, ch, n int) *Entry {
 
 // Lookup returns the entries whose payload is exactly p.
 func (l *Ledger) Lookup(p []byte) []*Entry { return l.byPayload[string(p)] }
+
+// Prepend puts prefix in front of e's payload (payloads that start like a header).
+func (l *Ledger) Prepend(e *Entry, prefix []byte) {
+	old := string(e.Payload)
+	lst := l.byPayload[old]
+	for i, x := range lst {
+		if x == e {
+			l.byPayload[old] = append(lst[:i:i], lst[i+1:]...)
+			break
+		}
+	}
+	e.Payload = append(append([]byte{}, prefix...), e.Payload...)
+	l.byPayload[string(e.Payload)] = append(l.byPayload[string(e.Payload)], e)
+}
 
 // Diagnose explains a payload that matches no entry.
 func (l *Ledger) Diagnose(p []byte) string {
@@ -270,6 +288,9 @@ func (w *World) ReceiverLoop(ctx context.Context, ep Endpoint, ch int, yields in
 	for {
 		err := ep.Receive(ctx, func(m Msg) {
 			w.OnDeliver(ep.Node(), ch, m)
+			if w.AddrHook != nil {
+				w.AddrHook(ep, m)
+			}
 			snap := append([]byte{}, m.Payload...)
 			srcSnap := m.Src
 			for i := 0; i < yields; i++ {
@@ -290,8 +311,13 @@ func (w *World) ReceiverLoop(ctx context.Context, ep Endpoint, ch int, yields in
 // TellOnce performs one ledger Tell from ep to node `to` with the payload split
 // into a random IOVec, checks the sender-side clauses and poisons the buffers.
 func (w *World) TellOnce(ctx context.Context, ep Endpoint, to, ch, n int) *Entry {
+	return w.TellEntry(ctx, ep, w.Led.New(w.St, ep.Node(), to, ch, n))
+}
+
+// TellEntry tells a prepared ledger entry.
+func (w *World) TellEntry(ctx context.Context, ep Endpoint, e *Entry) *Entry {
 	st := w.St
-	e := w.Led.New(st, ep.Node(), to, ch, n)
+	to := e.To
 	buf := append([]byte{}, e.Payload...)
 	var vec p2p.IOVec
 	switch st.Intn(4) {
@@ -377,6 +403,30 @@ func (w *World) pickLen(mtu int) int {
 	}
 	return st.Intn(lim + 1)
 }
+
+// dropClasses removes violation classes that belong to another property's check
+// (which runs the same code paths and reports them there), so that every check
+// decides its own property only.
+func dropClasses(res *simcore.Result, classes ...string) {
+	var keep []simcore.Violation
+	for _, v := range res.Violations {
+		drop := false
+		for _, c := range classes {
+			if v.Class == c {
+				drop = true
+			}
+		}
+		if drop {
+			res.Probe("other-property-violation-seen:" + v.Class)
+		} else {
+			keep = append(keep, v)
+		}
+	}
+	res.Violations = keep
+}
+
+// c11Classes are the answer-related classes owned by C11.
+var c11Classes = []string{"ask-wrong-answer", "ask-truncated-success", "ask-success-after-handler-failure", "ask-overdue", "ask-never-returned", "ask-bad-length"}
 
 func fillStats(res *simcore.Result, w *World) {
 	sim := w.Sim
